@@ -525,6 +525,14 @@ func ruleXZReaderChecks(c *Ctx, r *Report, prefix string) {
 							}
 						}
 					}
+					// or into a buffer of exactly two bytes
+					if ok && ref.lo == 0 && (ref.hi == -1 || ref.hi == 2) {
+						if ln := bufLen(stripConv(ref.root)); ln != nil {
+							if k, isK := constInt(ln); isK && k == 2 {
+								okRead = true
+							}
+						}
+					}
 				}
 			}
 		}
